@@ -1,40 +1,85 @@
 (* C20 — deep nesting and extreme arguments end in a result or an error, never a crash.
    Part A (index arithmetic) is proved here; Part B (stack depth) cannot be expressed in Gallina and is
-   exhibited by child processes (see DESIGN.md and evidence). *)
+   exhibited by child processes (see DESIGN.md and evidence).
+
+   Part A is about the formulas READ FROM THE SOURCE: DBI_* (delete_by_index), AI_* (array_insert), GBK_* (get_by_keypath),
+   DKP_* (delete_by_keypath), CI_* / CS_* (selector.rs convert_index / convert_slice) are generated into gen/Constants.v by
+   tools/translate_consts.py, together with X_SAFE = "every + - * and every `as T` of expression X yields a value inside the
+   machine type the code computes it in, under the path condition under which it is evaluated".  _T = JSON-text (Value) branch,
+   _B = JSONB byte branch of the same function.  The models that the correspondence runs execute call the same definitions. *)
 From Coq Require Import ZArith.
-From JB Require Import I32.
+From JB Require Import Constants I32.
 Open Scope Z_scope.
 
-Theorem C20_negative_positions_in_range : forall idx len, i32 idx -> len_ok len -> i32 (resolve_i32 idx len).
+Theorem C20_negative_positions_in_range : forall idx len, i32 idx -> len_ok len ->
+  i32 (DBI_T_RESOLVE idx len) /\ i32 (DBI_B_RESOLVE idx len) /\ i32 (AI_RESOLVE idx len) /\
+  i32 (DKP_T_RESOLVE idx len) /\ i32 (DKP_B_RESOLVE idx len).
 Proof. exact resolve_in_range. Qed.
 Print Assumptions C20_negative_positions_in_range.
 
-Theorem C20_insert_position_clamped : forall idx len, i32 idx -> len_ok len ->
-  let j := resolve_i32 idx len in 0 <= (if j <? 0 then 0 else if len <? j then len else j) <= len.
-Proof. exact insert_clamp_in_range. Qed.
+Theorem C20_delete_by_index_safe : forall index len, i32 index -> len_ok len ->
+  DBI_T_RESOLVE_SAFE index len /\ DBI_T_KEEP_SAFE (DBI_T_RESOLVE index len) len /\
+  DBI_B_RESOLVE_SAFE index len /\ DBI_B_SKIP_SAFE (DBI_B_RESOLVE index len) len.
+Proof. exact delete_by_index_safe. Qed.
+Print Assumptions C20_delete_by_index_safe.
+
+Theorem C20_insert_position_clamped : forall pos len, i32 pos -> len_ok len ->
+  AI_RESOLVE_SAFE pos len /\ AI_CLAMP_SAFE (AI_RESOLVE pos len) len /\ 0 <= AI_CLAMP (AI_RESOLVE pos len) len <= len.
+Proof. exact insert_position_safe. Qed.
 Print Assumptions C20_insert_position_clamped.
 
-Theorem C20_keypath_sum_in_range : forall idx len, i32 idx -> len_ok len -> idx <= len -> i32 (len + idx).
-Proof. exact keypath_sum_in_range. Qed.
+Theorem C20_keypath_sum_in_range : forall idx length, i32 idx -> len_ok length ->
+  (GBK_T_REJECT_SAFE idx length /\
+   (GBK_T_REJECT idx length = false -> GBK_T_INDEX_SAFE idx length /\ 0 <= GBK_T_INDEX idx length <= length)) /\
+  (GBK_B_REJECT_SAFE idx length /\
+   (GBK_B_REJECT idx length = false -> GBK_B_INDEX_SAFE idx length /\ 0 <= GBK_B_INDEX idx length <= length)).
+Proof. exact get_by_keypath_safe. Qed.
 Print Assumptions C20_keypath_sum_in_range.
 
-Theorem C20_last_index_in_range : forall idx len, i32 idx -> len_ok len -> i64 (len + idx - 1).
-Proof. exact last_index_in_range. Qed.
+Theorem C20_delete_by_keypath_safe : forall idx len, i32 idx -> len_ok len ->
+  DKP_T_RESOLVE_SAFE idx len /\ DKP_T_SKIP_SAFE (DKP_T_RESOLVE idx len) len /\
+  DKP_B_RESOLVE_SAFE idx len /\ DKP_B_SKIP_SAFE (DKP_B_RESOLVE idx len) len.
+Proof. exact delete_by_keypath_safe. Qed.
+Print Assumptions C20_delete_by_keypath_safe.
+
+Theorem C20_last_index_in_range : forall idx length, i32 idx -> len_ok length ->
+  (CI_LAST_SAFE idx length /\ i64 (CI_LAST idx length)) /\
+  (CS_START_LAST_SAFE idx length /\ i64 (CS_START_LAST idx length)) /\
+  (CS_END_LAST_SAFE idx length /\ i64 (CS_END_LAST idx length)).
+Proof. exact last_index_safe. Qed.
 Print Assumptions C20_last_index_in_range.
 
 Theorem C20_last_minus_in_range : forall v n, i64 v -> last_minus v = Some n -> n = (- v)%Z /\ i32 n /\ i64 (- v).
 Proof. exact last_minus_in_range. Qed.
 Print Assumptions C20_last_minus_in_range.
 
-Theorem C20_slice_bounds : forall s e len, i64 s -> i64 e -> len_ok len -> 0 < len -> s <= e -> s < len -> 0 <= e ->
-  0 <= Z.max 0 s <= Z.min (len - 1) e /\ Z.min (len - 1) e < len.
-Proof. exact slice_bounds. Qed.
+Theorem C20_slice_bounds : forall start stop length,
+  i64 start -> i64 stop -> len_ok length -> 0 < length -> CS_EMPTY start stop length = false ->
+  CS_LO_SAFE start /\ CS_HI_SAFE stop length /\ 0 <= CS_LO start <= CS_HI stop length /\ CS_HI stop length < length.
+Proof. exact CS_bounds_safe. Qed.
 Print Assumptions C20_slice_bounds.
+
+(* the ranges and the reference shapes, spelled out: i32 / i64 / len_ok are the usual intervals, and the generated formulas are
+   `if i < 0 { len + i } else { i }`, `length + idx - 1`, max / min *)
+Theorem C20_ranges_spelled_out : forall z,
+  (i32 z <-> -2147483648 <= z <= 2147483647) /\ (i64 z <-> -9223372036854775808 <= z <= 9223372036854775807) /\
+  (len_ok z <-> 0 <= z < 536870912).
+Proof. intros z. split; [apply i32_bound|split; [apply i64_bound|apply len_ok_bound]]. Qed.
+Print Assumptions C20_ranges_spelled_out.
+
+(* the two branches (JSON text input / JSONB input) of each function compute positions by the same function *)
+Theorem C20_text_eq_bytes :
+  (forall i len, DBI_T_RESOLVE i len = DBI_B_RESOLVE i len) /\ (forall j len, DBI_T_KEEP j len = negb (DBI_B_SKIP j len)) /\
+  (forall i len, GBK_T_REJECT i len = GBK_B_REJECT i len) /\ (forall i len, GBK_T_INDEX i len = GBK_B_INDEX i len) /\
+  (forall i len, DKP_T_RESOLVE i len = DKP_B_RESOLVE i len) /\ (forall j len, DKP_T_SKIP j len = DKP_B_SKIP j len) /\
+  (forall i len, CS_START_LAST i len = CI_LAST i len) /\ (forall i len, CS_END_LAST i len = CI_LAST i len).
+Proof. exact text_eq_bytes. Qed.
+Print Assumptions C20_text_eq_bytes.
 
 (* the arithmetic before the fixes, refuted *)
 Theorem C20_old_abs_refuted : exists idx, i32 idx /\ ~ i32 (Z.abs idx).
 Proof. exact abs_overflow_refuted. Qed.
 Print Assumptions C20_old_abs_refuted.
-Theorem C20_old_last_index_refuted : exists idx len, i32 idx /\ len_ok len /\ ~ i32 (len + idx - 1).
+Theorem C20_old_last_index_refuted : exists idx len, i32 idx /\ len_ok len /\ ~ i32 (CI_LAST idx len).
 Proof. exact last_index_i32_refuted. Qed.
 Print Assumptions C20_old_last_index_refuted.
